@@ -149,12 +149,13 @@ def run(ctx):
     with ThreadPoolExecutor(max_workers=C.NPROC) as ex:
         pref = list(ex.map(ref, [(f, "%da" % d) for f, d in pjobs]))
     # (q: the cache-write trace is not recorded — a run-away search must not exhaust memory; each engine run is bounded in time)
-    peng = []
-    for f, d in pjobs:
+    def _peng(job):
         try:
-            peng += S.run_engine([{"group": "deep", "fen": f, "moves": [], "specs": ["d%dxq" % d]}], timeout=60)
+            return S.run_engine([{"group": "deep", "fen": job[0], "moves": [], "specs": ["d%dxq" % job[1]]}], timeout=60)[0]
         except Exception:
-            peng.append({"results": []})
+            return {"results": []}
+    with ThreadPoolExecutor(max_workers=C.NPROC) as ex:
+        peng = list(ex.map(_peng, pjobs))
     npawn = 0
     for (f, d), rv, e in zip(pjobs, pref, peng):
         er = e["results"][0] if e["results"] else None
